@@ -11,3 +11,8 @@ add('C01', 'SYS', 'model_checking',
     'Every event history (evaluations, CI reports, pushes, admin jobs) of two pull requests over the listed layouts/settings is executed on the real code up to closure or the stated depth; the inclusion chain is checked on the remote after every transition, inductively.',
     'Trusts git itself and the in-package mock git host; 2 pull requests, bounded pushes; bounds per exploration are in the evidence.',
     'explicit-state BFS of the real implementation with invariant monitor', 'DESIGN.md section 5 C01')
+
+add('C04', 'ENUM', 'exploration',
+    'check_approvals is run on every combination of review settings accepted by the schema, every source of every bypass, approve/unanimity and every review state of 5 users (6.8M cases quick, all listed in the quantifier thorough) and compared with a reference written from the statement.',
+    'Stub pull request/job objects provide exactly the attributes the function reads; comment-sourced options are set as Reactor.handle_options sets them (parsing is C07).',
+    'exhaustive input enumeration vs reference oracle', 'DESIGN.md section 5 C04')
